@@ -16,7 +16,7 @@ theorem lit_complete (e rest : List UInt8) : lit e (e ++ rest) = .ok rest := by
   unfold lit
   simp
 
-theorem stringTail_complete (items : List Item) (rest : List UInt8) (hw : ∀ i ∈ items, i.wf false = true) :
+theorem stringTail_complete (items : List Item) (rest : List UInt8) (hw : ∀ i ∈ items, i.wf true = true) :
     stringTail (renderAll items ++ 34 :: rest) = .ok rest := by
   unfold stringTail
   rw [scanBody_render items rest hw]
@@ -198,7 +198,7 @@ theorem complM_step (range : Bool) (n : Nat) (hV : ∀ m, m ≤ n → ComplV ran
   unfold members
   cases hmem with
   | one _ w1 key w2 w3 v w4 h1 hk h2 h3 hv h4 =>
-    have hkw : ∀ i ∈ key, i.wf false = true := by intro i hi; simpa [rxCurrent] using hk i hi
+    have hkw : ∀ i ∈ key, i.wf true = true := by intro i hi; simpa [rxCurrent] using hk i hi
     have e : w1 ++ (34 :: renderAll key ++ [34]) ++ w2 ++ 58 :: (w3 ++ v ++ w4) ++ 125 :: rest =
         w1 ++ 34 :: (renderAll key ++ 34 :: (w2 ++ 58 :: (w3 ++ (v ++ (w4 ++ 125 :: rest))))) := by simp
     rw [e, skipWs_ws_append w1 _ h1, skipWs_nonws 34 _ (by decide)]
@@ -218,7 +218,7 @@ theorem complM_step (range : Bool) (n : Nat) (hV : ∀ m, m ≤ n → ComplV ran
     rw [skipWs_ws_append w4 _ h4, skipWs_nonws 125 _ (by decide)]
     simp
   | more _ w1 key w2 w3 v w4 rest' h1 hk h2 h3 hv h4 hr =>
-    have hkw : ∀ i ∈ key, i.wf false = true := by intro i hi; simpa [rxCurrent] using hk i hi
+    have hkw : ∀ i ∈ key, i.wf true = true := by intro i hi; simpa [rxCurrent] using hk i hi
     have e : w1 ++ (34 :: renderAll key ++ [34]) ++ w2 ++ 58 :: (w3 ++ v ++ w4) ++ 44 :: rest' ++ 125 :: rest =
         w1 ++ 34 :: (renderAll key ++ 34 :: (w2 ++ 58 :: (w3 ++ (v ++ (w4 ++ 44 :: (rest' ++ 125 :: rest)))))) := by simp
     rw [e, skipWs_ws_append w1 _ h1, skipWs_nonws 34 _ (by decide)]
